@@ -123,7 +123,13 @@ ALSO = {
  "C03": " Also: a successful transactional Put/Delete has buffered exactly that operation; a log file is reused for appending only behind a clean tail; the retry wrapper's decision table (success only after a successful call; error after exhausted retries).",
  "C04": " Also: a successful transactional Put/Delete has buffered exactly that operation; batch entries are stamped with the number the log assigned; an empty value is never turned into a deletion marker.",
  "C06": " Also: the retry wrapper's decision table; immutable memtables leave the pool only into the flush path; the sequence counter is handed over at rotation; every Append* reads the status with WAL.mu held.",
- "C07": " Also: the database-wide transaction lock is released on every exit of Commit/Rollback after the active swap.",
+ "C07": " Also: the database-wide transaction lock is released on every exit of Commit/Rollback after the active swap; pairing: every lock acquired in a function of pkg/ is released or deferred before every reachable return.",
+ "C15": " Also: no re-entrant acquisition of a receiver's lock in the replication package; the primary's gRPC server pings idle connections.",
+ "C16": " Also: reflective method lookups name only the engine's own BeginTransaction.",
+ "C17": " Also: the lock pairing rule (every acquisition released or deferred before every reachable return).",
+ "C18": " Also: MemTable.Get's decision table over the immutable and the mutable arm.",
+ "C19": " Also: the prefix/suffix predicates agree with bytes.HasPrefix/HasSuffix.",
+ "C20": " Also: the temporary manifest file is truncated (or created exclusively) when opened.",
  "C13": " Also: Compress/Decompress handle the same codecs with inverse library calls and return fresh memory; per entry type the applier performs the primary's operation with the entry's own key and value.",
  "C14": " Also (shared with C13): the replica's cursor discipline; the 'nothing to send' exits of the catch-up reader are decided by the log's own counter; the replica does not lower its gRPC receive limit below the default.",
  "C08": " Also: every Append* reads the closed/rotating status with WAL.mu held.",
